@@ -2,51 +2,56 @@
 From PV Require Export C05.ProofsVanish.
 
 Definition set_ctime (o : pobj) (c : option Z) : pobj :=
-  {| o_pid := o_pid o; o_ident := o_ident o; o_ctime := c |}.
+  {| o_pid := o_pid o; o_ident := o_ident o; o_ctime := c; o_known := o_known o |}.
 
 (* ------------------------------------------------------------ with the repair (age tests on start
    times since boot) nothing depends on the create_time() cache, hence on the clock *)
 Section Mono.
   Variable fx : fixes.
   Hypothesis M : fx_mono fx = true.
+  Hypothesis N : fx_ident_some fx = true.     (* the test is "is not None": tick 0 is a value *)
 
-  Lemma caller_start_set : forall t o c, caller_start fx t (set_ctime o c) = caller_start fx t o.
-  Proof. intros t o c. unfold caller_start. rewrite M. reflexivity. Qed.
+  Lemma caller_start_known : forall t o, o_known o = true -> caller_start fx t o = Val (o_ident o).
+  Proof. intros t o K. unfold caller_start, ident_opt. rewrite M, K, N. reflexivity. Qed.
 
-  Lemma child_ok_set : forall t gone o c q, child_ok fx t gone (set_ctime o c) q = child_ok fx t gone o q.
-  Proof. intros t gone o c q. unfold child_ok. rewrite caller_start_set. reflexivity. Qed.
+  Lemma caller_start_set : forall t o c, o_known o = true -> caller_start fx t (set_ctime o c) = caller_start fx t o.
+  Proof. intros t o c K. rewrite (caller_start_known t o K). apply (caller_start_known t (set_ctime o c)). exact K. Qed.
 
-  Lemma okkids_set : forall t gone o c p, okkids fx t gone (set_ctime o c) p = okkids fx t gone o p.
+  Lemma child_ok_set : forall t gone o c q, o_known o = true ->
+    child_ok fx t gone (set_ctime o c) q = child_ok fx t gone o q.
+  Proof. intros t gone o c q K. unfold child_ok. rewrite (caller_start_set t o c K). reflexivity. Qed.
+
+  Lemma okkids_set : forall t gone o c p, o_known o = true -> okkids fx t gone (set_ctime o c) p = okkids fx t gone o p.
   Proof.
-    intros t gone o c p. unfold okkids. apply filter_ext. intros q. rewrite child_ok_set. reflexivity.
+    intros t gone o c p K. unfold okkids. apply filter_ext. intros q. rewrite (child_ok_set t gone o c q K). reflexivity.
   Qed.
 
-  Lemma walk_set : forall t gone o c fuel stack seen ret,
+  Lemma walk_set : forall t gone o c, o_known o = true -> forall fuel stack seen ret,
     walk fx t gone (set_ctime o c) fuel stack seen ret = walk fx t gone o fuel stack seen ret.
   Proof.
-    intros t gone o c. induction fuel as [|f IH]; intros stack seen ret; destruct stack as [|p st]; try reflexivity.
-    cbn [walk]. rewrite okkids_set. destruct (memz p seen); apply IH.
+    intros t gone o c K. induction fuel as [|f IH]; intros stack seen ret; destruct stack as [|p st]; try reflexivity.
+    cbn [walk]. rewrite (okkids_set t gone o c p K). destruct (memz p seen); apply IH.
   Qed.
 
-  Lemma parent_set : forall t g cache o c, parent fx t g cache (set_ctime o c) = parent fx t g cache o.
-  Proof. intros t g cache o c. unfold parent. rewrite caller_start_set. reflexivity. Qed.
+  Lemma parent_set : forall t g cache o c, o_known o = true -> parent fx t g cache (set_ctime o c) = parent fx t g cache o.
+  Proof. intros t g cache o c K. unfold parent. rewrite (caller_start_set t o c K). reflexivity. Qed.
 
-  Theorem clock_invariance : forall t gone goneb cache fuel o c,
+  Theorem clock_invariance : forall t gone goneb cache fuel o c, o_known o = true ->
     children_direct fx t gone (set_ctime o c) = children_direct fx t gone o /\
     children_rec fx fuel t gone (set_ctime o c) = children_rec fx fuel t gone o /\
     parent fx t gone cache (set_ctime o c) = parent fx t gone cache o /\
     parents fx fuel t gone goneb cache (set_ctime o c) = parents fx fuel t gone goneb cache o.
   Proof.
-    intros t gone goneb cache fuel o c. repeat split.
-    - unfold children_direct. rewrite okkids_set. reflexivity.
-    - unfold children_rec. rewrite walk_set. reflexivity.
-    - apply parent_set.
-    - unfold parents. rewrite parent_set. reflexivity.
+    intros t gone goneb cache fuel o c K. repeat split.
+    - unfold children_direct. rewrite (okkids_set t gone o c _ K). reflexivity.
+    - unfold children_rec. rewrite (walk_set t gone o c K). reflexivity.
+    - apply parent_set. exact K.
+    - unfold parents. rewrite (parent_set t gone cache o c K). reflexivity.
   Qed.
 End Mono.
 
 Lemma clock_obj_shape : forall pid ident k0 evs,
-  exists c, clock_obj pid ident k0 evs = set_ctime {| o_pid := pid; o_ident := ident; o_ctime := None |} c.
+  exists c, clock_obj pid ident k0 evs = set_ctime {| o_pid := pid; o_ident := ident; o_ctime := None; o_known := true |} c.
 Proof.
   intros pid ident k0 evs. unfold clock_obj. destruct (run_clock ident k0 evs) as [k c].
   eexists. reflexivity.
@@ -54,7 +59,7 @@ Qed.
 
 (* whatever the clock did (steps of btime, boot_time() calls, create_time() calls on the
    caller), before or between calls: the four answers are the same *)
-Theorem btime_invariance : forall fx, fx_mono fx = true ->
+Theorem btime_invariance : forall fx, fx_mono fx = true -> fx_ident_some fx = true ->
   forall t gone goneb cache fuel pid ident k0 evs k0' evs',
     let o := clock_obj pid ident k0 evs in
     let o' := clock_obj pid ident k0' evs' in
@@ -63,11 +68,11 @@ Theorem btime_invariance : forall fx, fx_mono fx = true ->
     parent fx t gone cache o = parent fx t gone cache o' /\
     parents fx fuel t gone goneb cache o = parents fx fuel t gone goneb cache o'.
 Proof.
-  intros fx M t gone goneb cache fuel pid ident k0 evs k0' evs' o o'.
+  intros fx M N t gone goneb cache fuel pid ident k0 evs k0' evs' o o'.
   destruct (clock_obj_shape pid ident k0 evs) as [c E]. destruct (clock_obj_shape pid ident k0' evs') as [c' E'].
   subst o o'. rewrite E, E'.
-  destruct (clock_invariance fx M t gone goneb cache fuel {| o_pid := pid; o_ident := ident; o_ctime := None |} c) as [A1 [A2 [A3 A4]]].
-  destruct (clock_invariance fx M t gone goneb cache fuel {| o_pid := pid; o_ident := ident; o_ctime := None |} c') as [B1 [B2 [B3 B4]]].
+  destruct (clock_invariance fx M N t gone goneb cache fuel {| o_pid := pid; o_ident := ident; o_ctime := None; o_known := true |} c eq_refl) as [A1 [A2 [A3 A4]]].
+  destruct (clock_invariance fx M N t gone goneb cache fuel {| o_pid := pid; o_ident := ident; o_ctime := None; o_known := true |} c' eq_refl) as [B1 [B2 [B3 B4]]].
   repeat split; congruence.
 Qed.
 
@@ -79,15 +84,22 @@ Proof.
   destruct (lookup t (o_pid o)); [apply andb_true_r | reflexivity].
 Qed.
 
+Lemma live_known : forall t o, live_b t o = true -> o_known o = true.
+Proof.
+  intros t o H. unfold live_b in H. destruct (lookup t (o_pid o)); [|discriminate].
+  apply andb_true_iff in H. destruct H as [H _]. exact H.
+Qed.
+
 Section MonoSpec.
   Variable fx : fixes.
   Hypothesis M : fx_mono fx = true.
+  Hypothesis N : fx_ident_some fx = true.
   Hypothesis S1 : fx_skip_self fx = true.
 
   Theorem children_direct_mono : forall t gone o, wf_table t = true -> live_b t o = true ->
     children_direct fx t gone o = Val (spec_children t gone (o_pid o) (o_ident o)).
   Proof.
-    intros t gone o W Lv. destruct (clock_invariance fx M t gone [] None O o None) as [E _]. rewrite <- E.
+    intros t gone o W Lv. destruct (clock_invariance fx M N t gone [] None O o None (live_known t o Lv)) as [E _]. rewrite <- E.
     assert (A : alive_b t (set_ctime o None) = true) by (rewrite alive_norm; exact Lv).
     destruct (alive_facts _ _ A) as [R _].
     unfold children_direct. rewrite R. cbn [obind]. f_equal.
@@ -100,7 +112,7 @@ Section MonoSpec.
     exists l, children_rec fx (S (length t)) t gone o = Val (Some l) /\ NoDup l /\
               forall q, In q l <-> (desc t gone (o_pid o) (o_ident o) q /\ q <> o_pid o).
   Proof.
-    intros t gone o W Lv. destruct (clock_invariance fx M t gone [] None (S (length t)) o None) as [_ [E _]].
+    intros t gone o W Lv. destruct (clock_invariance fx M N t gone [] None (S (length t)) o None (live_known t o Lv)) as [_ [E _]].
     rewrite <- E.
     assert (A : alive_b t (set_ctime o None) = true) by (rewrite alive_norm; exact Lv).
     destruct (alive_facts _ _ A) as [R _].
@@ -113,7 +125,7 @@ Section MonoSpec.
     cache_fresh_b t cache = true ->
     parent fx t gone cache o = Val (spec_parent_v t gone (o_pid o) (o_ident o)).
   Proof.
-    intros t gone cache o W Lv F. destruct (clock_invariance fx M t gone [] cache O o None) as [_ [_ [E _]]].
+    intros t gone cache o W Lv F. destruct (clock_invariance fx M N t gone [] cache O o None (live_known t o Lv)) as [_ [_ [E _]]].
     rewrite <- E.
     assert (A : alive_b t (set_ctime o None) = true) by (rewrite alive_norm; exact Lv).
     apply (parent_spec_v fx t gone cache (set_ctime o None) W A F).
@@ -129,9 +141,9 @@ Section MonoSpec.
     intros t gone goneb cache o F1 F2 W Lv F.
     assert (A : alive_b t (set_ctime o None) = true) by (rewrite alive_norm; exact Lv).
     split.
-    - destruct (clock_invariance fx M t gone goneb cache (S (length t)) o None) as [_ [_ [_ E]]]. rewrite <- E.
+    - destruct (clock_invariance fx M N t gone goneb cache (S (length t)) o None (live_known t o Lv)) as [_ [_ [_ E]]]. rewrite <- E.
       apply (parents_vanish_total fx t gone goneb cache (set_ctime o None) F1 F2 W A F).
-    - intros l fuel Ng Ch B. destruct (clock_invariance fx M t gone goneb cache fuel o None) as [_ [_ [_ E]]].
+    - intros l fuel Ng Ch B. destruct (clock_invariance fx M N t gone goneb cache fuel o None (live_known t o Lv)) as [_ [_ [_ E]]].
       rewrite <- E. apply (parents_chain_v_fx fx t gone goneb cache (set_ctime o None) l fuel F2 W A F Ng Ch B).
   Qed.
 End MonoSpec.
@@ -192,14 +204,14 @@ Proof. vm_compute. reflexivity. Qed.
 
 (* ------------------------------------------------------------ the code as it is: every theorem
    proved for a caller with a consistent create_time() cache holds for every live caller *)
-Lemma norm_ops : forall t gone goneb cache fuel o,
+Lemma norm_ops : forall t gone goneb cache fuel o, o_known o = true ->
   children_direct as_is t gone o = children_direct as_is t gone (set_ctime o None) /\
   children_rec as_is fuel t gone o = children_rec as_is fuel t gone (set_ctime o None) /\
   parent as_is t gone cache o = parent as_is t gone cache (set_ctime o None) /\
   parents as_is fuel t gone goneb cache o = parents as_is fuel t gone goneb cache (set_ctime o None).
 Proof.
-  intros t gone goneb cache fuel o.
-  destruct (clock_invariance as_is eq_refl t gone goneb cache fuel o None) as [A [B [C D]]].
+  intros t gone goneb cache fuel o K.
+  destruct (clock_invariance as_is eq_refl eq_refl t gone goneb cache fuel o None K) as [A [B [C D]]].
   repeat split; symmetry; assumption.
 Qed.
 
@@ -208,17 +220,17 @@ Proof. intros t o H. rewrite alive_norm. exact H. Qed.
 
 Theorem children_direct_live : forall t gone o, wf_table t = true -> live_b t o = true ->
   children_direct as_is t gone o = Val (spec_children t gone (o_pid o) (o_ident o)).
-Proof. exact (children_direct_mono as_is eq_refl eq_refl). Qed.
+Proof. exact (children_direct_mono as_is eq_refl eq_refl eq_refl). Qed.
 
 Theorem children_rec_live : forall t gone o, wf_table t = true -> live_b t o = true ->
   exists l, children_rec as_is (S (length t)) t gone o = Val (Some l) /\ NoDup l /\
             forall q, In q l <-> (desc t gone (o_pid o) (o_ident o) q /\ q <> o_pid o).
-Proof. exact (children_rec_mono as_is eq_refl eq_refl). Qed.
+Proof. exact (children_rec_mono as_is eq_refl eq_refl eq_refl). Qed.
 
 Theorem parent_live : forall t gone cache o, wf_table t = true -> live_b t o = true ->
   cache_fresh_b t cache = true ->
   parent as_is t gone cache o = Val (spec_parent_v t gone (o_pid o) (o_ident o)).
-Proof. exact (parent_mono as_is eq_refl). Qed.
+Proof. exact (parent_mono as_is eq_refl eq_refl). Qed.
 
 Theorem parent_static_live : forall t cache o, wf_table t = true -> live_b t o = true ->
   cache_fresh_b t cache = true ->
@@ -230,7 +242,7 @@ Theorem parents_total_live : forall t gone goneb cache o,
   exists l, parents as_is (S (length t)) t gone goneb cache o = Val (Some l).
 Proof.
   intros t gone goneb cache o W L F.
-  destruct (parents_mono as_is eq_refl t gone goneb cache o eq_refl eq_refl W L F) as [H _]. exact H.
+  destruct (parents_mono as_is eq_refl eq_refl t gone goneb cache o eq_refl eq_refl W L F) as [H _]. exact H.
 Qed.
 
 Theorem parents_chain_v_live : forall t gone goneb cache o l fuel,
@@ -240,7 +252,7 @@ Theorem parents_chain_v_live : forall t gone goneb cache o l fuel,
   parents as_is fuel t gone goneb cache o = Val (Some l).
 Proof.
   intros t gone goneb cache o l fuel W L F Ng Ch B.
-  destruct (parents_mono as_is eq_refl t gone goneb cache o eq_refl eq_refl W L F) as [_ H]. apply H; assumption.
+  destruct (parents_mono as_is eq_refl eq_refl t gone goneb cache o eq_refl eq_refl W L F) as [_ H]. apply H; assumption.
 Qed.
 
 Theorem parents_oracle_live : forall t gone goneb cache o l,
@@ -257,7 +269,7 @@ Theorem parents_cut_live : forall t cache o, wf_table t = true -> live_b t o = t
   cache_fresh_b t cache = true ->
   exists l, parents as_is (S (length t)) t [] [] cache o = Val (Some l) /\ chain_cut t [o_pid o] (o_pid o) l.
 Proof.
-  intros t cache o W L F. destruct (norm_ops t [] [] cache (S (length t)) o) as [_ [_ [_ E]]].
+  intros t cache o W L F. destruct (norm_ops t [] [] cache (S (length t)) o (live_known t o L)) as [_ [_ [_ E]]].
   destruct (parents_cut t cache (set_ctime o None) W (norm_alive t o L) F) as [l [H C]].
   exists l. split; [rewrite E; exact H | exact C].
 Qed.
@@ -266,7 +278,7 @@ Theorem parents_chain_complete_live : forall t cache o l fuel, wf_table t = true
   cache_fresh_b t cache = true -> chain t (o_pid o) l -> (length l <= fuel)%nat ->
   parents as_is fuel t [] [] cache o = Val (Some l).
 Proof.
-  intros t cache o l fuel W L F Ch B. destruct (norm_ops t [] [] cache fuel o) as [_ [_ [_ E]]]. rewrite E.
+  intros t cache o l fuel W L F Ch B. destruct (norm_ops t [] [] cache fuel o (live_known t o L)) as [_ [_ [_ E]]]. rewrite E.
   apply (parents_chain_complete t cache (set_ctime o None) l fuel W (norm_alive t o L) F Ch B).
 Qed.
 
@@ -274,7 +286,63 @@ Theorem parents_acyclic_chain_live : forall t cache o, wf_table t = true -> live
   cache_fresh_b t cache = true -> acyclic t ->
   exists l, parents as_is (S (length t)) t [] [] cache o = Val (Some l) /\ chain t (o_pid o) l.
 Proof.
-  intros t cache o W L F AC. destruct (norm_ops t [] [] cache (S (length t)) o) as [_ [_ [_ E]]].
+  intros t cache o W L F AC. destruct (norm_ops t [] [] cache (S (length t)) o (live_known t o L)) as [_ [_ [_ E]]].
   destruct (parents_acyclic_chain t cache (set_ctime o None) W (norm_alive t o L) F AC) as [l [H C]].
   exists l. split; [rewrite E; exact H | exact C].
 Qed.
+
+(* ------------------------------------------------------------ start tick 0 is a value, not "unknown" *)
+(* a caller whose identity is start tick 0 (init, kthreadd, PID 1/2 of a container) obeys the
+   same statements as any other: instances of the theorems above *)
+Theorem tick0_statements : forall t gone goneb cache o,
+  wf_table t = true -> live_b t o = true -> cache_fresh_b t cache = true -> o_ident o = 0 ->
+  children_direct as_is t gone o = Val (spec_children t gone (o_pid o) 0) /\
+  (exists l, children_rec as_is (S (length t)) t gone o = Val (Some l) /\ NoDup l /\
+             forall q, In q l <-> (desc t gone (o_pid o) 0 q /\ q <> o_pid o)) /\
+  parent as_is t gone cache o = Val (spec_parent_v t gone (o_pid o) 0) /\
+  (exists l, parents as_is (S (length t)) t gone goneb cache o = Val (Some l)) /\
+  forall c, children_direct as_is t gone (set_ctime o c) = children_direct as_is t gone o /\
+            parent as_is t gone cache (set_ctime o c) = parent as_is t gone cache o.
+Proof.
+  intros t gone goneb cache o W L F Z0. rewrite <- Z0. repeat split.
+  - apply children_direct_live; assumption.
+  - apply children_rec_live; assumption.
+  - apply parent_live; assumption.
+  - apply parents_total_live; assumption.
+  - destruct (clock_invariance as_is eq_refl eq_refl t gone goneb cache O o c (live_known t o L)) as [A _]. exact A.
+  - destruct (clock_invariance as_is eq_refl eq_refl t gone goneb cache O o c (live_known t o L)) as [_ [_ [A _]]]. exact A.
+Qed.
+
+(* an UNKNOWN identity (_ident[1] is None: the start time could not be read when the object was
+   created) is something else: once the PID is readable the object is taken for a stale one *)
+Theorem unknown_identity_raises : forall t gone goneb cache fuel o e,
+  o_known o = false -> lookup t (o_pid o) = Some e ->
+  children_direct as_is t gone o = Exc NoSuchProcess /\
+  children_rec as_is fuel t gone o = Exc NoSuchProcess /\
+  parent as_is t gone cache o = Exc NoSuchProcess /\
+  parents as_is fuel t gone goneb cache o = Exc NoSuchProcess.
+Proof.
+  intros t gone goneb cache fuel o e K L.
+  assert (R : raise_if_pid_reused t o = Exc NoSuchProcess) by (unfold raise_if_pid_reused; rewrite L, K; reflexivity).
+  assert (P : parent as_is t gone cache o = Exc NoSuchProcess) by (unfold parent; cbn [fx_parent_reuse as_is]; rewrite R; reflexivity).
+  repeat split.
+  - unfold children_direct. rewrite R. reflexivity.
+  - unfold children_rec. rewrite R. reflexivity.
+  - exact P.
+  - unfold parents. rewrite P. reflexivity.
+Qed.
+
+(* what a truthiness test on _ident[1] would do (NOT the code): a caller at tick 0 falls back
+   to create_time() on both sides, and a clock step + boot_time() refresh corrupts the answers *)
+Definition t0tab : table := [ {| kp_pid := 1; kp_ppid := 0; kp_start := 0 |};
+                              {| kp_pid := 2; kp_ppid := 1; kp_start := 0 |};
+                              {| kp_pid := 5; kp_ppid := 2; kp_start := 0 |};
+                              {| kp_pid := 7; kp_ppid := 2; kp_start := 50 |} ].
+Theorem ident_falsy_refuted :
+  let back := clock_obj 2 0 k1500 [CallCreateTime; SetBtime 149999990000; CallBootTime] in
+  let fwd := clock_obj 2 0 k1500 [CallCreateTime; SetBtime 150000010000; CallBootTime] in
+  wf_table t0tab = true /\ live_b t0tab back = true /\ live_b t0tab fwd = true /\
+  children_direct as_is t0tab [] back = Val [5; 7] /\ children_direct ident_falsy_variant t0tab [] back = Val [] /\
+  parent as_is t0tab [] None fwd = Val (Some (1, 0)) /\ parent ident_falsy_variant t0tab [] None fwd = Val None /\
+  parents as_is 5 t0tab [] [] None fwd = Val (Some [1]) /\ parents ident_falsy_variant 5 t0tab [] [] None fwd = Val (Some []).
+Proof. repeat split; vm_compute; reflexivity. Qed.
